@@ -3,15 +3,74 @@
 package main
 
 import (
+	"io"
+	"io/ioutil"
 	"net/http"
 	"os"
+	"strconv"
 )
 
 // With the "verif" build tag and BIP39_VERIF_UPSTREAM set, every HTTP fetch of
 // the tool is served in-process from that directory (no sockets): the request
 // path /bitcoin/bips/master/bip-0039/<lang>.txt is resolved below it.
+//
+// If BIP39_VERIF_FRAG is also set to an integer seed, response bodies are
+// delivered the way a network delivers them: in short reads of seeded sizes,
+// the last bytes possibly together with io.EOF.
 func init() {
 	if dir := os.Getenv("BIP39_VERIF_UPSTREAM"); dir != "" {
-		http.DefaultTransport = http.NewFileTransport(http.Dir(dir))
+		var rt http.RoundTripper = http.NewFileTransport(http.Dir(dir))
+		if s := os.Getenv("BIP39_VERIF_FRAG"); s != "" {
+			seed, _ := strconv.ParseUint(s, 10, 64)
+			rt = &verifFragTransport{rt: rt, seed: seed}
+		}
+		http.DefaultTransport = rt
 	}
 }
+
+type verifFragTransport struct {
+	rt   http.RoundTripper
+	seed uint64
+}
+
+func (t *verifFragTransport) RoundTrip(req *http.Request) (*http.Response, error) {
+	resp, err := t.rt.RoundTrip(req)
+	if err != nil {
+		return resp, err
+	}
+	data, err := ioutil.ReadAll(resp.Body)
+	resp.Body.Close()
+	if err != nil {
+		return nil, err
+	}
+	t.seed = t.seed*6364136223846793005 + 1442695040888963407
+	resp.Body = &verifFragBody{data: data, s: t.seed}
+	return resp, nil
+}
+
+type verifFragBody struct {
+	data []byte
+	s    uint64
+}
+
+func (b *verifFragBody) Read(p []byte) (int, error) {
+	if len(b.data) == 0 {
+		return 0, io.EOF
+	}
+	b.s = b.s*6364136223846793005 + 1442695040888963407
+	n := int(b.s>>33)%97 + 1
+	if n > len(p) {
+		n = len(p)
+	}
+	if n > len(b.data) {
+		n = len(b.data)
+	}
+	copy(p, b.data[:n])
+	b.data = b.data[n:]
+	if len(b.data) == 0 && b.s&(1<<20) != 0 {
+		return n, io.EOF // the last bytes together with EOF
+	}
+	return n, nil
+}
+
+func (b *verifFragBody) Close() error { return nil }
